@@ -4,6 +4,7 @@
   on lists of rationals and validates its inverse on every call.
 -/
 import PgmVerif.Model.Gauss
+import PgmVerif.Model.Generated
 import Mathlib.LinearAlgebra.Matrix.NonsingularInverse
 import Mathlib.LinearAlgebra.Matrix.SchurComplement
 namespace PgmVerif
@@ -52,5 +53,9 @@ theorem C20_conditional_is_schur (A : Matrix m m K) (B : Matrix m n K) (C : Matr
 /-- non-vacuity: an invertible 1×1 system meets the hypotheses of the covariance theorems -/
 example : IsUnit (Matrix.det (!![2] : Matrix (Fin 1) (Fin 1) Rat)) := by
   simp
+
+/-- extraction tie: `to_joint_gaussian` rounds mean and covariance to 8 decimals — the perturbation bound that the
+    correspondence check of `predict` allows for is derived from this literal -/
+theorem C20_round_tie : Generated.lgRoundDecimals = some 8 := by decide
 
 end PgmVerif
